@@ -109,6 +109,8 @@ def items_user():
         ("name@skip", Field("name", directives=[("skip", "s")])), ("cn:name@skip", Field("name", alias="cn", directives=[("skip", "s")])), ("id@include", Field("id", directives=[("include", "s")])),
         ("friends@include", Field("friends", [Field("name")], directives=[("include", "s")])), ("role@skip", Field("role", directives=[("skip", "s")])),
         ("createdAt", Field("createdAt")), ("in", Field("in")), ("match", Field("match")), ("c:createdAt", Field("createdAt", alias="c")),
+        # one schema field under DIFFERENT response keys in different selection sets of one operation body
+        ("friends{fn:name friends{name fid:id}}", Field("friends", [Field("name", alias="fn"), Field("friends", [Field("name"), Field("id", alias="fid")])])),
     ]
 
 
@@ -123,6 +125,7 @@ def items_node():
         ("on Org{memberIds}", Inline("Org", [Field("memberIds")])), ("...CardN", Spread("CardN")), ("...ChainN", Spread("ChainN")),
         ("on Org{return}", Inline("Org", [Field("return"), Field("kind")])),
         ("on Org{kindOf}", Inline("Org", [Field("kindOf"), Field("memberIds")])), ("on User{in}", Inline("User", [Field("in"), Field("createdAt"), Field("match")])),
+        ("on User{un:name friends{name}}", Inline("User", [Field("name", alias="un"), Field("friends", [Field("name"), Field("label", alias="l2")])])),
     ]
 
 
@@ -146,7 +149,7 @@ def items_root():
 
 
 CORE_ITEMS = {  # the reduced alphabets used for k = 3 (and for the quick k = 2 tier)
-    "user": ["name", "id", "n:name", "friend", "__typename", "...UserA", "...UserB", "on User", "...NodeF", "tags", "cn:name@skip"],
+    "user": ["name", "id", "n:name", "friend", "__typename", "...UserA", "...UserB", "on User", "...NodeF", "tags", "cn:name@skip", "friends"],
     "node": ["id", "l:label", "on User{name}", "on User{age}", "on Org{name}", "...NodeF", "...UserA",
              "...UserB", "...OrgF"],
     "thing": ["on User{name}", "on User{age}", "on Cat{name}", "...UserA", "...UserB", "...CatF",
